@@ -107,12 +107,18 @@ func NewHTTPConfig(opts ...HTTPOption) Config {
 // removed. If urlPath is empty or cleaning it results in an empty string,
 // defaultPath is returned instead.
 func cleanPath(urlPath string, defaultPath string) string {
-	tmp := path.Clean(strings.TrimSpace(urlPath))
+	trimmed := strings.TrimSpace(urlPath)
+	tmp := path.Clean(trimmed)
 	if tmp == "." {
 		return defaultPath
 	}
 	if !path.IsAbs(tmp) {
 		tmp = "/" + tmp
+	}
+	// path.Clean drops a trailing slash, but it is significant in a URL: a
+	// per-signal endpoint has to be used as-is.
+	if tmp != "/" && strings.HasSuffix(trimmed, "/") {
+		tmp += "/"
 	}
 	return tmp
 }
